@@ -540,226 +540,257 @@ Definition culprit_ok (c : cfg) (s : state) (n : nat) (w : why) (t : nat) : bool
   | _ => true
   end.
 
-(* [react]: the effect of an event together with the guards that enable it *)
-Definition react (c : cfg) (s : state) (e : event) : state * list guard :=
+(* ---- reactions of the control events, one function each *)
+
+(* the tidy wait of an exit path returned *)
+Definition react_tidy (c : cfg) (n : nat) (s : state) : state * list out :=
+  if rcanc (Rn s n) then end_cancelled c n s
+  else shutdown_start c n true (set_phase s n (PShut (why_of s n))).
+
+(* the shutdown wait returned with [p] pending; [culprit] as observed *)
+Definition react_shut (c : cfg) (n : nat) (p : list nat) (culprit : nat) (s : state)
+  : state * list out :=
+  let '(s1, res, mo1) := react_shut_wake c n p s in
+  match res with
+  | None => (s1, mo1)
+  | Some r =>
+      if sd_inline s n then
+        let '(s2, mo2) := finish_run c n (why_of s n) r culprit s1 in (s2, mo1 ++ mo2)
+      else (hdone n r s1, mo1 ++ [OSdEnd n r])
+  end.
+
+Definition react_shtidy (c : cfg) (n : nat) (culprit : nat) (s : state) : state * list out :=
+  let '(s1, r) := react_shtidy_wake n s in
+  if sd_inline s n then
+    match r with
+    | SRCancelled => let '(s2, mo2) := end_cancelled c n s1 in (s2, OSdEnd n SRCancelled :: mo2)
+    | _ => finish_run c n (why_of s n) r culprit s1
+    end
+  else (hdone n r s1, [OSdEnd n r]).
+
+(* CancelledError at the main wait: Scheduler.co_run tidies the unfinished job tasks *)
+Definition react_cancel_main (c : cfg) (n : nat) (s : state) : state * list out :=
+  let u := filter (fun j => negb (jfin s j)) (pend (Rn s n)) in
+  let s0 := clear_cp s n in
+  match u with
+  | [] => end_cancelled c n s0
+  | _ =>
+      let r0 := Rn s0 n in
+      (setR (mapJ cancel_j u s0) n
+            (mkRst PCTidy u (seen r0) (ndone r0) (qsz r0) (expi r0) (tbeg r0) (fto r0) (fcr r0) (rcanc r0)),
+       [OWaitCall n KCTidy u None])
+  end.
+
+(* CancelledError inside _tidy_tasks: cancel again, keep waiting, remember to re-raise *)
+Definition react_cancel_tidy (c : cfg) (n : nat) (s : state) : state * list out :=
+  let r := Rn s n in
+  let s0 := clear_cp s n in
+  let r0 := Rn s0 n in
+  (setR (mapJ cancel_j (pend r) s0) n
+        (mkRst (ph r0) (pend r0) (seen r0) (ndone r0) (qsz r0) (expi r0) (tbeg r0) (fto r0) (fcr r0) true),
+   [OWaitCall n KTidy (pend r) None]).
+
+Definition react_cancel_ctidy (c : cfg) (n : nat) (s : state) : state * list out :=
+  let r := Rn s n in
+  (mapJ cancel_j (pend r) (clear_cp s n), [OWaitCall n KCTidy (pend r) None]).
+
+Definition react_cancel_shut (c : cfg) (n : nat) (s : state) : state * list out :=
+  react_shut_cancel c n (if sd_inline s n then clear_cp s n else clear_hcp s n).
+
+(* first step of the co_shutdown() task of nested scheduler [n] (or the late explicit
+   shutdown of the root) *)
+Definition react_sdstart (c : cfg) (n : nat) (s : state) : state * list out :=
+  let '(s1, mo) := shutdown_start c n false (setH s n (mkHst HRunning false None)) in
+  (* if the activity is over at once, so is the task *)
+  (match sp (Sd s1 n), did (Sd s n) with
+   | SdWait, false => s1
+   | _, _ => setH s1 n (mkHst HDone false None)
+   end, mo).
+
+(* ---- effects of the job and handler events *)
+
+Definition bump_q (s : state) (p : nat) (f : nat -> nat) : state :=
+  let r := Rn s p in
+  setR s p (mkRst (ph r) (pend r) (seen r) (ndone r) (f (qsz r)) (expi r) (tbeg r) (fto r) (fcr r) (rcanc r)).
+
+Definition eff_start (c : cfg) (j : nat) (s : state) : state :=
+  bump_q (setJ s j (mkJst Running false (optN_add (now s) (j_dur (jc c j))) true)) (parent c j) S.
+Definition eff_finish (c : cfg) (j : nat) (oc : outcome) (s : state) : state :=
+  bump_q (setJ s j (mkJst (match oc with ORet => DoneRet RVOwn | OExc => DoneExc (tag_job j) end) false None true))
+         (parent c j) pred.
+Definition eff_cancel_hit (c : cfg) (j : nat) (s : state) : state :=
+  setJ s j (mkJst Cancelling false (Some (now s + j_cdur (jc c j))%N) true).
+Definition eff_cancel_over (c : cfg) (j : nat) (s : state) : state :=
+  bump_q (setJ s j (mkJst Cancelled false None true)) (parent c j) pred.
+Definition eff_gone (j : nat) (s : state) : state := setJ s j (mkJst Cancelled false None false).
+
+(* [reaction]: new state and, for control events, the outputs the model expects *)
+Definition reaction (c : cfg) (s : state) (e : event) : state * list out :=
+  match e with
+  | EBegin n _ => react_begin c n s
+  | EWake n KMain d _ => react_main c n d s
+  | EWake n KTidy _ _ => react_tidy c n s
+  | EWake n KCTidy _ _ => end_cancelled c n s
+  | EWake n KShut p o => react_shut c n p (culprit_of o) s
+  | EWake n KShTidy _ o => react_shtidy c n (culprit_of o) s
+  | ECancelled n KMain _ => react_cancel_main c n s
+  | ECancelled n KTidy _ => react_cancel_tidy c n s
+  | ECancelled n KCTidy _ => react_cancel_ctidy c n s
+  | ECancelled n _ _ => react_cancel_shut c n s
+  | ESdStart n _ => react_sdstart c n s
+  | EStart j => (eff_start c j s, [])
+  | EFinish j oc => (eff_finish c j oc s, [])
+  | ECancelHit j => (eff_cancel_hit c j s, [])
+  | ECancelEnd j => (eff_cancel_over c j s, [])
+  | ECancelAbort j => (eff_cancel_over c j s, [])
+  | EGone j => (eff_gone j s, [])
+  | EHStart j => (setH s j (mkHst HRunning false (optN_add (now s) (j_sdur (jc c j)))), [])
+  | EHEnd j => (setH s j (mkHst HDone false None), [])
+  | EHCancel j => (setH s j (mkHst HCancelled false None), [])
+  | EHGone j => (setH s j (mkHst HCancelled false None), [])
+  | ETick t => (setNow s t, [])
+  | EGrace t => (setNow s t, [])
+  | EPoll _ _ => (s, [])
+  end.
+
+Definition atomic_id (c : cfg) (j : nat) : bool :=
+  negb (j_sched (jc c j)) && Nat.ltb j (njobs c) && negb (rootb j).
+Definition sched_id (c : cfg) (n : nat) : bool := j_sched (jc c n) && Nat.ltb n (njobs c).
+
+(* the shutdown activity of [n] is being run by: its own run (inline) / its co_shutdown() task *)
+Definition sd_thread_ok (c : cfg) (s : state) (n : nat) (want_cancel : bool) : guard * guard :=
+  let inline := sd_inline s n in
+  ((0, 40, if inline then run_alive c s n want_cancel else true),
+   (3, 46, if inline then true
+           else match hs (Hd s n) with HRunning => Bool.eqb (hcp (Hd s n)) want_cancel | _ => false end)).
+
+(* [guards]: what must hold for the event to be enabled, each with the level from which it is
+   enforced and a diagnostic code *)
+Definition guards (c : cfg) (s : state) (e : event) : list guard :=
+  let mo := snd (reaction c s e) in
   match e with
   | EBegin n o =>
-      let '(s', mo) := react_begin c n s in
-      (s', [(0, 1, j_sched (jc c n) && Nat.ltb n (njobs c));
-            (0, 2, if rootb n then match ph (Rn s n) with PIdle => true | _ => false end
-                   else match st (Jb s n) with Created => negb (cp (Jb s n)) | _ => false end);
-            (1, 3, rootb n || slot_free c s (parent c n));
-            (0, 4, outs_match o mo)])
+      [(0, 1, sched_id c n);
+       (0, 2, if rootb n then match ph (Rn s n) with PIdle => true | _ => false end
+              else match st (Jb s n) with Created => negb (cp (Jb s n)) | _ => false end);
+       (1, 3, rootb n || slot_free c s (parent c n));
+       (0, 4, outs_match o mo)]
   | EWake n KMain d o =>
       let r := Rn s n in
-      let '(s', mo) := react_main c n d s in
-      (s', [(0, 10, run_alive c s n false);
-            (0, 11, match ph r with PMain => true | _ => false end);
-            (0, 12, seteqb d (filter (jfin s) (pend r)) && nodupb d);
-            (0, 13, match d with [] => match expi r with Some _ => true | None => false end | _ => true end);
-            (2, 14, match d with [] => opt_le_now s (expi r) | _ => true end);
-            (0, 15, outs_match o mo)])
+      [(0, 10, run_alive c s n false);
+       (0, 11, match ph r with PMain => true | _ => false end);
+       (0, 12, seteqb d (filter (jfin s) (pend r)) && nodupb d);
+       (0, 13, match d with [] => match expi r with Some _ => true | None => false end | _ => true end);
+       (2, 14, match d with [] => opt_le_now s (expi r) | _ => true end);
+       (0, 15, outs_match o mo)]
   | EWake n KTidy d o =>
       let r := Rn s n in
-      let '(s', mo) :=
-        if rcanc r then end_cancelled c n s
-        else shutdown_start c n true (set_phase s n (PShut (why_of s n))) in
-      (s', [(0, 20, run_alive c s n false);
-            (0, 21, match ph r with PTidy _ => true | _ => false end);
-            (0, 22, forallb (jfin s) (pend r));
-            (0, 23, outs_match o mo)])
+      [(0, 20, run_alive c s n false);
+       (0, 21, match ph r with PTidy _ => true | _ => false end);
+       (0, 22, forallb (jfin s) (pend r));
+       (0, 23, outs_match o mo)]
   | EWake n KCTidy d o =>
       let r := Rn s n in
-      let '(s', mo) := end_cancelled c n s in
-      (s', [(0, 30, run_alive c s n false);
-            (0, 31, match ph r with PCTidy => true | _ => false end);
-            (0, 32, forallb (jfin s) (pend r));
-            (0, 33, outs_match o mo)])
+      [(0, 30, run_alive c s n false);
+       (0, 31, match ph r with PCTidy => true | _ => false end);
+       (0, 32, forallb (jfin s) (pend r));
+       (0, 33, outs_match o mo)]
   | EWake n KShut p o =>
       let ss := Sd s n in
       let inline := sd_inline s n in
-      let '(s1, res, mo1) := react_shut_wake c n p s in
-      let '(s', mo) :=
-        match res with
-        | None => (s1, mo1)
-        | Some r =>
-            if inline then
-              let '(s2, mo2) := finish_run c n (why_of s n) r (culprit_of o) s1 in (s2, mo1 ++ mo2)
-            else (hdone n r s1, mo1 ++ [OSdEnd n r])
-        end in
-      (s', [(0, 40, if inline then run_alive c s n false else true);
-            (3, 46, if inline then true
-                    else match hs (Hd s n) with HRunning => negb (hcp (Hd s n)) | _ => false end);
-            (3, 41, match sp ss with SdWait => true | _ => false end);
-            (3, 42, seteqb p (hpending c s (members c n)) && nodupb p);
-            (3, 43, match p with [] => true | _ => opt_le_now s (sdl ss) end);
-            (0, 44, if inline && match p with [] => true | _ => false end
-                    then culprit_ok c s n (why_of s n) (culprit_of o) else true);
-            (0, 45, outs_match o mo)])
+      [fst (sd_thread_ok c s n false); snd (sd_thread_ok c s n false);
+       (3, 41, match sp ss with SdWait => true | _ => false end);
+       (3, 42, seteqb p (hpending c s (members c n)) && nodupb p);
+       (3, 43, match p with [] => true | _ => opt_le_now s (sdl ss) end);
+       (0, 44, if inline && match p with [] => true | _ => false end
+               then culprit_ok c s n (why_of s n) (culprit_of o) else true);
+       (0, 45, outs_match o mo)]
   | EWake n KShTidy d o =>
       let ss := Sd s n in
       let inline := sd_inline s n in
-      let '(s1, r) := react_shtidy_wake n s in
-      let '(s', mo) :=
-        if inline then
-          match r with
-          | SRCancelled =>
-              let '(s2, mo2) := end_cancelled c n s1 in (s2, OSdEnd n SRCancelled :: mo2)
-          | _ => finish_run c n (why_of s n) r (culprit_of o) s1
-          end
-        else (hdone n r s1, [OSdEnd n r]) in
-      (s', [(0, 50, if inline then run_alive c s n false else true);
-            (3, 55, if inline then true
-                    else match hs (Hd s n) with HRunning => negb (hcp (Hd s n)) | _ => false end);
-            (3, 51, match sp ss with SdTidy => true | _ => false end);
-            (3, 52, forallb (hfin s) (spend ss));
-            (0, 53, if inline && negb (scanc ss) then culprit_ok c s n (why_of s n) (culprit_of o) else true);
-            (0, 54, outs_match o mo)])
+      [fst (sd_thread_ok c s n false); snd (sd_thread_ok c s n false);
+       (3, 51, match sp ss with SdTidy => true | _ => false end);
+       (3, 52, forallb (hfin s) (spend ss));
+       (0, 53, if inline && negb (scanc ss) then culprit_ok c s n (why_of s n) (culprit_of o) else true);
+       (0, 54, outs_match o mo)]
   | ECancelled n KMain o =>
-      let r := Rn s n in
-      let u := filter (fun j => negb (jfin s j)) (pend r) in
-      let s0 := clear_cp s n in
-      let '(s', mo) :=
-        match u with
-        | [] => end_cancelled c n s0
-        | _ =>
-            let r0 := Rn s0 n in
-            (setR (mapJ cancel_j u s0) n
-                  (mkRst PCTidy u (seen r0) (ndone r0) (qsz r0) (expi r0) (tbeg r0) (fto r0) (fcr r0) (rcanc r0)),
-             [OWaitCall n KCTidy u None])
-        end in
-      (s', [(0, 60, run_alive c s n true);
-            (0, 61, match ph r with PMain => true | _ => false end);
-            (0, 62, outs_match o mo)])
+      [(0, 60, run_alive c s n true);
+       (0, 61, match ph (Rn s n) with PMain => true | _ => false end);
+       (0, 62, outs_match o mo)]
   | ECancelled n KTidy o =>
-      let r := Rn s n in
-      let s0 := clear_cp s n in
-      let r0 := Rn s0 n in
-      (setR (mapJ cancel_j (pend r) s0) n
-            (mkRst (ph r0) (pend r0) (seen r0) (ndone r0) (qsz r0) (expi r0) (tbeg r0) (fto r0) (fcr r0) true),
-       [(0, 70, run_alive c s n true);
-        (0, 71, match ph r with PTidy _ => true | _ => false end);
-        (0, 72, outs_match o [OWaitCall n KTidy (pend r) None])])
+      [(0, 70, run_alive c s n true);
+       (0, 71, match ph (Rn s n) with PTidy _ => true | _ => false end);
+       (0, 72, outs_match o mo)]
   | ECancelled n KCTidy o =>
-      let r := Rn s n in
-      let s0 := clear_cp s n in
-      (mapJ cancel_j (pend r) s0,
-       [(0, 80, run_alive c s n true);
-        (0, 81, match ph r with PCTidy => true | _ => false end);
-        (0, 82, outs_match o [OWaitCall n KCTidy (pend r) None])])
+      [(0, 80, run_alive c s n true);
+       (0, 81, match ph (Rn s n) with PCTidy => true | _ => false end);
+       (0, 82, outs_match o mo)]
   | ECancelled n k o =>
-      (* KShut / KShTidy: CancelledError inside co_shutdown *)
-      let ss := Sd s n in
-      let inline := sd_inline s n in
-      let s0 := if inline then clear_cp s n else clear_hcp s n in
-      let '(s', mo) := react_shut_cancel c n s0 in
-      (s', [(0, 90, if inline then run_alive c s n true else true);
-            (3, 93, if inline then true
-                    else match hs (Hd s n) with HRunning => hcp (Hd s n) | _ => false end);
-            (3, 91, match sp ss, k with SdWait, KShut => true | SdTidy, KShTidy => true | _, _ => false end);
-            (0, 92, outs_match o mo)])
+      [fst (sd_thread_ok c s n true); snd (sd_thread_ok c s n true);
+       (3, 91, match sp (Sd s n), k with SdWait, KShut => true | SdTidy, KShTidy => true | _, _ => false end);
+       (0, 92, outs_match o mo)]
   | ESdStart n o =>
-      let '(s1, mo) := shutdown_start c n false (setH s n (mkHst HRunning false None)) in
-      (* if the activity is over at once, so is the task *)
-      let s' := match sp (Sd s1 n), did (Sd s n) with
-                | SdWait, false => s1
-                | _, _ => setH s1 n (mkHst HDone false None)
-                end in
-      (s', [(0, 100, j_sched (jc c n) && Nat.ltb n (njobs c));
-            (3, 101, match hs (Hd s n) with HCreated => negb (hcp (Hd s n)) | _ => rootb n && match ph (Rn s n) with POver => true | _ => false end end);
-            (0, 102, outs_match o mo)])
+      [(0, 100, sched_id c n);
+       (3, 101, match hs (Hd s n) with
+                | HCreated => negb (hcp (Hd s n))
+                | _ => rootb n && match ph (Rn s n) with POver => true | _ => false end
+                end);
+       (0, 102, outs_match o mo)]
   | EStart j =>
-      let p := parent c j in
-      let x := Jb s j in
-      let r := Rn s p in
-      (setR (setJ s j (mkJst Running false (optN_add (now s) (j_dur (jc c j))) true)) p
-            (mkRst (ph r) (pend r) (seen r) (ndone r) (S (qsz r)) (expi r) (tbeg r) (fto r) (fcr r) (rcanc r)),
-       [(0, 110, negb (j_sched (jc c j)) && Nat.ltb j (njobs c) && negb (rootb j));
-        (0, 111, match st x with Created => negb (cp x) | _ => false end);
-        (1, 112, slot_free c s p)])
+      [(0, 110, atomic_id c j);
+       (0, 111, match st (Jb s j) with Created => negb (cp (Jb s j)) | _ => false end);
+       (1, 112, slot_free c s (parent c j))]
   | EFinish j oc =>
-      let p := parent c j in
-      let x := Jb s j in
-      let r := Rn s p in
-      (setR (setJ s j (mkJst (match oc with ORet => DoneRet RVOwn | OExc => DoneExc (tag_job j) end) false None true)) p
-            (mkRst (ph r) (pend r) (seen r) (ndone r) (qsz r - 1) (expi r) (tbeg r) (fto r) (fcr r) (rcanc r)),
-       [(0, 120, negb (j_sched (jc c j)) && Nat.ltb j (njobs c));
-        (0, 121, match st x with Running => negb (cp x) | _ => false end);
-        (0, 122, outcome_eqb oc (j_out (jc c j)) && match j_dur (jc c j) with Some _ => true | None => false end);
-        (2, 123, opt_eq_now s (tend x))])
+      [(0, 120, atomic_id c j);
+       (0, 121, match st (Jb s j) with Running => negb (cp (Jb s j)) | _ => false end);
+       (0, 122, outcome_eqb oc (j_out (jc c j)) && match j_dur (jc c j) with Some _ => true | None => false end);
+       (2, 123, opt_eq_now s (tend (Jb s j)))]
   | ECancelHit j =>
-      let x := Jb s j in
-      (setJ s j (mkJst Cancelling false (Some (now s + j_cdur (jc c j))%N) true),
-       [(0, 130, negb (j_sched (jc c j)) && Nat.ltb j (njobs c));
-        (0, 131, match st x with Running => cp x | _ => false end)])
+      [(0, 130, atomic_id c j);
+       (0, 131, match st (Jb s j) with Running => cp (Jb s j) | _ => false end)]
   | ECancelEnd j =>
-      let p := parent c j in
-      let x := Jb s j in
-      let r := Rn s p in
-      (setR (setJ s j (mkJst Cancelled false None true)) p
-            (mkRst (ph r) (pend r) (seen r) (ndone r) (qsz r - 1) (expi r) (tbeg r) (fto r) (fcr r) (rcanc r)),
-       [(0, 140, negb (j_sched (jc c j)) && Nat.ltb j (njobs c));
-        (0, 141, match st x with Cancelling => negb (cp x) | _ => false end);
-        (2, 142, opt_eq_now s (tend x))])
+      [(0, 140, atomic_id c j);
+       (0, 141, match st (Jb s j) with Cancelling => negb (cp (Jb s j)) | _ => false end);
+       (2, 142, opt_eq_now s (tend (Jb s j)))]
   | ECancelAbort j =>
-      let p := parent c j in
-      let x := Jb s j in
-      let r := Rn s p in
-      (setR (setJ s j (mkJst Cancelled false None true)) p
-            (mkRst (ph r) (pend r) (seen r) (ndone r) (qsz r - 1) (expi r) (tbeg r) (fto r) (fcr r) (rcanc r)),
-       [(0, 150, negb (j_sched (jc c j)) && Nat.ltb j (njobs c));
-        (0, 151, match st x with Cancelling => cp x | _ => false end)])
+      [(0, 150, atomic_id c j);
+       (0, 151, match st (Jb s j) with Cancelling => cp (Jb s j) | _ => false end)]
   | EGone j =>
-      let x := Jb s j in
-      (setJ s j (mkJst Cancelled false None false),
-       [(0, 160, Nat.ltb j (njobs c) && negb (rootb j));
-        (0, 161, match st x with Created => cp x | _ => false end)])
+      [(0, 160, Nat.ltb j (njobs c) && negb (rootb j));
+       (0, 161, match st (Jb s j) with Created => cp (Jb s j) | _ => false end)]
   | EHStart j =>
-      let x := Hd s j in
-      (setH s j (mkHst HRunning false (optN_add (now s) (j_sdur (jc c j)))),
-       [(0, 170, negb (j_sched (jc c j)) && Nat.ltb j (njobs c));
-        (3, 171, match hs x with HCreated => negb (hcp x) | _ => false end)])
+      [(0, 170, atomic_id c j);
+       (3, 171, match hs (Hd s j) with HCreated => negb (hcp (Hd s j)) | _ => false end)]
   | EHEnd j =>
-      let x := Hd s j in
-      (setH s j (mkHst HDone false None),
-       [(0, 180, negb (j_sched (jc c j)) && Nat.ltb j (njobs c));
-        (3, 181, match hs x with HRunning => negb (hcp x) | _ => false end);
-        (3, 182, match j_sdur (jc c j) with Some _ => opt_eq_now s (hend x) | None => false end)])
+      [(0, 180, atomic_id c j);
+       (3, 181, match hs (Hd s j) with HRunning => negb (hcp (Hd s j)) | _ => false end);
+       (3, 182, match j_sdur (jc c j) with Some _ => opt_eq_now s (hend (Hd s j)) | None => false end)]
   | EHCancel j =>
-      let x := Hd s j in
-      (setH s j (mkHst HCancelled false None),
-       [(0, 190, negb (j_sched (jc c j)) && Nat.ltb j (njobs c));
-        (3, 191, match hs x with HRunning => hcp x | _ => false end)])
+      [(0, 190, atomic_id c j);
+       (3, 191, match hs (Hd s j) with HRunning => hcp (Hd s j) | _ => false end)]
   | EHGone j =>
-      let x := Hd s j in
-      (setH s j (mkHst HCancelled false None),
-       [(0, 200, Nat.ltb j (njobs c));
-        (3, 201, match hs x with HCreated => hcp x | _ => false end)])
+      [(0, 200, Nat.ltb j (njobs c));
+       (3, 201, match hs (Hd s j) with HCreated => hcp (Hd s j) | _ => false end)]
   | ETick t =>
-      (setNow s t,
-       [(0, 210, N.ltb (now s) t);
-        (2, 211, quiescent c s);
-        (2, 212, match minN (deadlines c s) with Some m => N.eqb m t | None => false end)])
+      [(0, 210, N.ltb (now s) t);
+       (2, 211, quiescent c s);
+       (2, 212, match minN (deadlines c s) with Some m => N.eqb m t | None => false end)]
   | EGrace t =>
-      (setNow s t,
-       [(0, 220, N.ltb (now s) t);
-        (0, 221, match ph (Rn s 0) with POver => true | _ => false end);
-        (2, 222, quiescent c s);
-        (2, 223, match minN (deadlines c s) with Some _ => false | None => true end)])
+      [(0, 220, N.ltb (now s) t);
+       (0, 221, match ph (Rn s 0) with POver => true | _ => false end);
+       (2, 222, quiescent c s);
+       (2, 223, match minN (deadlines c s) with Some _ => false | None => true end)]
   | EPoll jv sv =>
-      (s,
-       [(0, 230, forallb (fun v => jview_eqb v (view_of (v_id v) (Jb s (v_id v)))) jv);
-        (0, 231, forallb (fun v => sview_eqb v (mkSv (sv_id v) (fto (Rn s (sv_id v))) (fcr (Rn s (sv_id v))))) sv)])
+      [(0, 230, forallb (fun v => jview_eqb v (view_of (v_id v) (Jb s (v_id v)))) jv);
+       (0, 231, forallb (fun v => sview_eqb v (mkSv (sv_id v) (fto (Rn s (sv_id v))) (fcr (Rn s (sv_id v))))) sv)]
   end.
 
 Definition step (lvl : nat) (c : cfg) (s : state) (e : event) : option state :=
-  let '(s', gs) := react c s e in
-  if forallb (holds lvl) gs then Some s' else None.
+  if forallb (holds lvl) (guards c s e) then Some (fst (reaction c s e)) else None.
 
 (* diagnostic: code of the first guard that fails (0 = none) *)
 Definition diag (lvl : nat) (c : cfg) (s : state) (e : event) : nat :=
-  let '(_, gs) := react c s e in
-  fold_right (fun g acc => if holds lvl g then acc else snd (fst g)) 0 gs.
+  fold_right (fun g acc => if holds lvl g then acc else snd (fst g)) 0 (guards c s e).
 
 Fixpoint run (lvl : nat) (c : cfg) (s : state) (h : list event) : option state :=
   match h with
